@@ -28,6 +28,11 @@ def own(key):
     # exactly the offered capacity, so an overflow in the function that fills them is C18's own monitor
     if key.startswith("asan:heap-buffer-overflow:ares_addrinfo2addrttl"):
         return PROP
+    # the harness walking what a legacy parser returned (unterminated alias/address lists, short blocks) or the
+    # matching free function running over it: "exactly the records", "released completely by its free function"
+    if key.startswith("asan:heap-buffer-overflow:harness<lg_") \
+            or ":ares_free_hostent" in key or ":ares_free_data" in key:
+        return PROP
     return "C02"   # other memory errors, UB, aborts and hangs in the parsers belong to C02
 
 
